@@ -10,17 +10,28 @@ Open Scope N_scope.
 Definition none_iff_false {T : Type} (b : bdd) (o : outcome (option T)) : Prop :=
   exists r, o = Ok r /\ (r = None <-> is_false b = true) /\ (r = None <-> forall v, eval b v = false).
 
-Lemma none_iff_false_intro {T : Type} b (o : outcome (option T)) : Canonical b ->
+(* is_false (node count = 1) is still exact on a benign non-reduced diagram: one with a decision node is satisfiable *)
+Theorem is_false_correct_benign b : Benign b -> (is_false b = true <-> forall v, eval b v = false).
+Proof.
+  intros (W & R & _). split.
+  - intros H v. apply eval_size1. apply is_false_size. exact H.
+  - intros Hall. destruct (is_false b) eqn:Hf; [reflexivity|]. exfalso.
+    destruct (nonzero_sat_benign b (root b) W R (valid_root b W) (root_nonzero b W Hf)) as (v & Hv).
+    specialize (Hall v). unfold eval in Hall. fold (root b) in Hall. congruence.
+Qed.
+Print Assumptions is_false_correct_benign.
+
+Lemma none_iff_false_intro {T : Type} b (o : outcome (option T)) : Benign b ->
   (is_false b = true -> o = Ok None) -> (is_false b = false -> exists x, o = Ok (Some x)) -> none_iff_false b o.
 Proof.
-  intros C H1 H2. pose proof (is_false_correct b C) as HF. destruct (is_false b) eqn:E.
+  intros C H1 H2. pose proof (is_false_correct_benign b C) as HF. destruct (is_false b) eqn:E.
   - exists None. split; [apply H1; reflexivity|]. rewrite E. split; [tauto|]. rewrite <- HF. tauto.
   - destruct (H2 eq_refl) as (x & Hx). exists (Some x). split; [exact Hx|]. split.
     + rewrite E. split; intros Hd; discriminate Hd.
     + rewrite <- HF. split; intros Hd; discriminate Hd.
 Qed.
 
-Theorem all_none_iff_false b : Canonical b ->
+Theorem all_none_iff_false_benign b : Benign b ->
   none_iff_false b (sat_witness b) /\ none_iff_false b (first_valuation b) /\ none_iff_false b (last_valuation b) /\
   none_iff_false b (most_positive_valuation b) /\ none_iff_false b (most_negative_valuation b) /\
   none_iff_false b (first_clause b) /\ none_iff_false b (last_clause b) /\
@@ -31,28 +42,39 @@ Theorem all_none_iff_false b : Canonical b ->
 Proof.
   intros C. repeat split; try intros script; apply (none_iff_false_intro b _ C).
   - apply sat_witness_none.
-  - intros H. destruct (sat_witness_spec b C H) as (l & Hl & _). now exists l.
+  - intros H. destruct (sat_witness_spec_benign b C H) as (l & Hl & _). now exists l.
   - apply first_valuation_none.
-  - intros H. destruct (first_valuation_spec b C H) as (l & Hl & _). now exists l.
+  - intros H. destruct (first_valuation_spec_benign b C H) as (l & Hl & _). now exists l.
   - apply last_valuation_none.
-  - intros H. destruct (last_valuation_spec b C H) as (l & Hl & _). now exists l.
+  - intros H. destruct (last_valuation_spec_benign b C H) as (l & Hl & _). now exists l.
   - apply most_positive_valuation_none.
-  - intros H. destruct (most_positive_spec b C H) as (l & Hl & _). now exists l.
+  - intros H. destruct (most_positive_spec_benign b C H) as (l & Hl & _). now exists l.
   - apply most_negative_valuation_none.
-  - intros H. destruct (most_negative_spec b C H) as (l & Hl & _). now exists l.
+  - intros H. destruct (most_negative_spec_benign b C H) as (l & Hl & _). now exists l.
   - apply first_clause_none.
-  - intros H. destruct (first_clause_spec b C H) as (pv & ds & Hl & _). now exists pv.
+  - intros H. destruct (first_clause_spec_benign b C H) as (pv & ds & Hl & _). now exists pv.
   - apply last_clause_none.
-  - intros H. destruct (last_clause_spec b C H) as (pv & ds & Hl & _). now exists pv.
+  - intros H. destruct (last_clause_spec_benign b C H) as (pv & ds & Hl & _). now exists pv.
   - apply most_fixed_clause_none.
-  - intros H. destruct (most_fixed_clause_spec b C H) as (pv & ds & Hl & _). now exists pv.
+  - intros H. destruct (most_fixed_clause_spec_benign b C H) as (pv & ds & Hl & _). now exists pv.
   - apply most_free_clause_none.
-  - intros H. destruct (most_free_clause_spec b C H) as (pv & ds & Hl & _). now exists pv.
+  - intros H. destruct (most_free_clause_spec_benign b C H) as (pv & ds & Hl & _). now exists pv.
   - apply necessary_clause_none.
-  - intros H. destruct (necessary_clause_spec b C H) as (pv & Hl & _). now exists pv.
+  - intros H. destruct (necessary_clause_spec_benign b C H) as (pv & Hl & _). now exists pv.
   - apply random_valuation_none.
-  - intros H. destruct (random_valuation_spec b script C H) as (l & Hl & _). now exists l.
+  - intros H. destruct (random_valuation_spec_benign b script C H) as (l & Hl & _). now exists l.
   - apply random_clause_none.
-  - intros H. destruct (random_clause_spec b script C H) as (pv & Hl & _). now exists pv.
+  - intros H. destruct (random_clause_spec_benign b script C H) as (pv & Hl & _). now exists pv.
 Qed.
+Print Assumptions all_none_iff_false_benign.
+
+Theorem all_none_iff_false b : Canonical b ->
+  none_iff_false b (sat_witness b) /\ none_iff_false b (first_valuation b) /\ none_iff_false b (last_valuation b) /\
+  none_iff_false b (most_positive_valuation b) /\ none_iff_false b (most_negative_valuation b) /\
+  none_iff_false b (first_clause b) /\ none_iff_false b (last_clause b) /\
+  none_iff_false b (most_fixed_clause b) /\ none_iff_false b (most_free_clause b) /\
+  none_iff_false b (necessary_clause b) /\
+  (forall script, none_iff_false b (random_valuation b script)) /\
+  (forall script, none_iff_false b (random_clause b script)).
+Proof. intros C. apply all_none_iff_false_benign. apply canonical_benign. exact C. Qed.
 Print Assumptions all_none_iff_false.
